@@ -32,7 +32,19 @@ func main() {
 	out := flag.String("out", "/verif", "directory holding evidence/, replay/, known_findings.json")
 	replay := flag.String("replay", "", "replay file: re-check and report the status of that obligation")
 	list := flag.Bool("list", false, "list obligations")
+	meta := flag.Bool("meta", false, "print the rule metadata of all properties as JSON and exit")
 	flag.Parse()
+	if *meta {
+		out := map[string]interface{}{}
+		for _, id := range rules.IDs() {
+			p := rules.Get(id)
+			out[id] = map[string]interface{}{"technique": p.Meta.Technique, "explanation": p.Meta.Explanation, "not_decided": p.Meta.NotDecided,
+				"assumptions": p.Meta.Assumptions, "mutants": len(p.Mutants)}
+		}
+		b, _ := json.MarshalIndent(out, "", " ")
+		fmt.Println(string(b))
+		return
+	}
 	if env := os.Getenv("VERIF_TIER"); env != "" && *tier == "quick" && (env == "quick" || env == "thorough") {
 		*tier = env
 	}
@@ -192,6 +204,7 @@ func selfTest(pr *rules.Property, base *an.Prog) *an.SelfTest {
 	type res struct {
 		name            string
 		skipped, killed bool
+		broken          bool
 		detail          string
 	}
 	results := make([]res, len(pr.Mutants))
@@ -225,8 +238,8 @@ func selfTest(pr *rules.Property, base *an.Prog) *an.SelfTest {
 			}
 			for _, ob := range c.Failures() {
 				if ob.Rule == "type-check" {
-					r.skipped = true
-					r.detail = fmt.Sprintf("%s: mutant does not compile: %s", m.Name, ob.Msg)
+					r.broken = true
+					r.detail = fmt.Sprintf("%s: mutant does not compile (fix the self-test): %s", m.Name, ob.Msg)
 					break
 				}
 				if strings.HasPrefix(ob.Key, m.Rule) {
@@ -235,7 +248,7 @@ func selfTest(pr *rules.Property, base *an.Prog) *an.SelfTest {
 					break
 				}
 			}
-			if !r.killed && !r.skipped {
+			if !r.killed && !r.skipped && !r.broken {
 				var got []string
 				for _, ob := range c.Failures() {
 					got = append(got, ob.Key)
